@@ -9,6 +9,8 @@ Input lines are `op ## impl-output`. The C07 operations (put/del/get/scan/bg f/b
 * `ckpt id`            `DB.Checkpoint(id)` up to the return of the call (capture under the lock)
 * `cw id` / `cd id`    the two asynchronous halves (WAL save, document save + handle returned)
 * `retain i,j`         `UpdateRetainedCheckpoints`
+* `hcd id` / `hretain i,j` / `release`   the same with the write of the `checkpoints` file held back at a gate until
+                       `release`: other list operations issued meanwhile report `blocked` (the list mutex is held)
 * `reopen id mode`     abandon the instance (crash) and `dkv.Open` from the handle of checkpoint `id`
 * `peek id`            open a throw-away read-only instance from the handle and scan it completely
 * `intact`             theorem instance evaluated on the implementation (files of retained checkpoints unchanged)
@@ -27,11 +29,20 @@ structure St where
   bad : Bool := false
   flushQ : Nat := 0
   compactQ : Nat := 0
+  /-- a save of the `checkpoints` document is being held back by the harness inside `CheckpointList.Save` -/
+  held : Bool := false
+  /-- the checkpoint whose handle that held save will return -/
+  heldId : Option Nat := none
 
 def specOf (st : St) (id : Nat) : Spec := ((st.specAt.find? (·.1 == id)).map (·.2)).getD []
 
 def retainedDone (st : St) (id : Nat) : Bool :=
-  st.s.done.contains id && st.s.ckpts.any (·.id == id)
+  st.s.done.contains id && st.s.ckpts.any (·.id == id) && st.heldId != some id
+
+/-- While a save is held inside `CheckpointList.Save` the code keeps the list mutex, so every other list operation
+waits (`blocked`: nothing happens). The model's save is one atomic step, applied when the held save took its
+snapshot; if the implementation lets a list operation through nevertheless, it is applied after it. -/
+def listBlocked (st : St) (hint : List String) : Bool := st.held && hint == ["blocked"]
 
 def stepM (st : St) (a : Ckpt.Act) : Option St :=
   match Ckpt.step st.s a with
@@ -54,6 +65,39 @@ def parseRots (ws : List String) : List Nat :=
   | none => []
 
 def showIds (l : List Nat) : String := if l.isEmpty then "-" else joinWith "," (l.map toString)
+
+def stepList (st : St) (op : List String) : St × String :=
+  match op with
+  | ["ckpt", id] =>
+    match stepM st (.checkpoint (natOr id)) with
+    | some st' => ({ st' with specAt := (natOr id, st.spec) :: st.specAt }, "captured")
+    | none => (st, "disabled")
+  | ["cw", id] =>
+    match stepM st (.saveWal (natOr id)) with
+    | some st' => (st', "ok")
+    | none => (st, "none")
+  | ["cd", id] =>
+    match stepM st (.saveDoc (natOr id)) with
+    | some st' => (st', "ok")
+    | none => (st, "none")
+  | ["retain", ids] =>
+    match stepM st (.retain (parseIds ids)) with
+    | some st' => (st', "ok")
+    | none => (st, "refused")
+  | ["hcd", id] =>
+    if st.held then
+      match stepM st (.saveDoc (natOr id)) with
+      | some st' => (st', "ok")
+      | none => (st, "none")
+    else
+      match stepM st (.saveDoc (natOr id)) with
+      | some st' => ({ st' with held := true, heldId := some (natOr id) }, "held")
+      | none => (st, "none")
+  | ["hretain", ids] =>
+    match stepM st (.retain (parseIds ids)) with
+    | some st' => if st.held then (st', "ok") else ({ st' with held := true }, "held")
+    | none => (st, "refused")
+  | _ => (st, "bad-op")
 
 def step (st : St) (ws : List String) : St × String :=
   let (op, hint) := splitHint ws
@@ -88,22 +132,11 @@ def step (st : St) (ws : List String) : St × String :=
       | some st' => (st', joinWith " " hint)
       | none => ({ st with bad := true }, "unsafe")
     | _ => (st, "bad-hint")
-  | ["ckpt", id] =>
-    match stepM st (.checkpoint (natOr id)) with
-    | some st' => ({ st' with specAt := (natOr id, st.spec) :: st.specAt }, "captured")
-    | none => (st, "disabled")
-  | ["cw", id] =>
-    match stepM st (.saveWal (natOr id)) with
-    | some st' => (st', "ok")
-    | none => (st, "none")
-  | ["cd", id] =>
-    match stepM st (.saveDoc (natOr id)) with
-    | some st' => (st', "ok")
-    | none => (st, "none")
-  | ["retain", ids] =>
-    match stepM st (.retain (parseIds ids)) with
-    | some st' => (st', "ok")
-    | none => (st, "refused")
+  | ["cw", _] => stepList st op
+  | ["ckpt", _] | ["cd", _] | ["retain", _] | ["hcd", _] | ["hretain", _] =>
+    if listBlocked st hint then (st, "blocked") else stepList st op
+  | ["release"] =>
+    if st.held then ({ st with held := false, heldId := none }, "ok") else (st, "none")
   | ["reopen", id, _] =>
     let i := natOr id
     if !retainedDone st i then (st, "refused") else
@@ -111,7 +144,7 @@ def step (st : St) (ws : List String) : St × String :=
     match Ckpt.run st.s [.crash, .open i rots] with
     | some s' =>
       let n := s'.db.mems.length - 1
-      ({ st with s := s', spec := specOf st i, flushQ := n, compactQ := 0 },
+      ({ st with s := s', spec := specOf st i, flushQ := n, compactQ := 0, held := false, heldId := none },
        "opened n=" ++ toString n ++ " rots=" ++ showIds rots)
     | none => ({ st with bad := true }, "failed")
   | ["peek", id] =>
